@@ -28,6 +28,9 @@ var damage = []string{
 	"fi", "fr", "elif", "elsif", "endfi", "endfro", "ni", "nul", // misspelt keywords (close to two or more real ones)
 	"?", ":", "=>", "...", "::", ".", ",", "=", "==", "&&", "||", "!", "-", "*", "/", ".*", "[*]",
 	"#", "/*", "\\", "\n", "\r\n", "\xff", "\x00", "a", "1",
+	// escape sequences (meaningful where the edit lands inside a quoted string): surrogate halves,
+	// beyond the last code point, too few digits, unknown escape
+	`\ud800`, `\U0000DFFF`, `\U00110000`, `\u12`, `\q`, `\t`,
 }
 
 const doubleEditMaxTokens = 12
